@@ -96,6 +96,7 @@ def build_units(name, extra_flags=(), tag=''):
     src = os.path.join(VERIF, 'trace', 'units', name + '.cpp')
     deps = [src, os.path.join(VERIF, 'trace', 'sym.hpp'), os.path.join(VERIF, 'trace', 'units', 'common.hpp')]
     deps += glob.glob(os.path.join(VERIF, 'trace', 'units', '*.hpp')) + glob.glob(os.path.join(VERIF, 'trace', '*.hpp'))
+    if name == 'C03': deps += glob.glob(os.path.join(VERIF, 'trace', 'fake_intrin', '*'))
     key = sha_files(set(deps), glm_tree_hash() + ' '.join(CXXFLAGS) + ' '.join(extra_flags))[:16]
     n = unit_parts(src)
     ncfg = unit_configs(src)
